@@ -347,7 +347,10 @@ func (r *run) stateCheck(after string) {
 			return false
 		}
 		if w, dup := seen[v]; dup {
-			r.fail("state-duplicate/after-"+after, "%s is %s and %s at once", v, w, where)
+			if w == where {
+				where = "there a second time"
+			}
+			r.fail("state-duplicate/after-"+after, "%s is %s and %s (counted twice)", v, w, where)
 			return false
 		}
 		seen[v] = where
